@@ -44,7 +44,15 @@ def gen_history(draw):
         k = draw(st.sampled_from(pool))
         who = draw(st.sampled_from(USERS))
         if k == "create":
-            steps.append({"k": "create", "kind": draw(st.sampled_from(CREATE_KINDS)), "who": who})
+            stp = {"k": "create", "kind": draw(st.sampled_from(CREATE_KINDS)), "who": who,
+                   "names": draw(st.sampled_from([0, 0, 1, 1, 2, 3]))}
+            if dead and draw(st.integers(0, 4)) == 0:
+                # a creating request whose template names an identifier of the client's choosing
+                # (a dead one, a live one, or a never-used one): it may be refused, but if it
+                # succeeds the identifier handed out must still be a fresh one
+                stp["want_uid"] = draw(st.sampled_from(["dead", "dead", "live", "fresh"]))
+                stp["n"] = draw(st.integers(0, 50))
+            steps.append(stp)
             live += 1
         elif k.startswith("destroy"):
             steps.append({"k": "destroy", "which": k.split("-")[1], "n": draw(st.integers(0, 50)),
@@ -135,8 +143,25 @@ class Run(object):
 
     def do_create(self, step, via_kill=None):
         item = _create_item(step["kind"], self.live, step["who"])
+        self.seq = getattr(self, "seq", 0) + 1
+        extra = [["Name", "c7-%d-%d" % (self.seq, j), j] for j in range(step.get("names", 0))]
+        chosen = None
+        if step.get("want_uid"):
+            pool = {"dead": [d["uid"] for d in self.dead], "live": [o["uid"] for o in self.live],
+                    "fresh": [str(900000 + self.seq)]}[step["want_uid"]]
+            if pool:
+                chosen = pool[step.get("n", 0) % len(pool)]
+                extra.append(["Unique Identifier", chosen])
+        if extra:
+            key = "common" if item["op"] == "CreateKeyPair" else "attrs"
+            item = dict(item)
+            item[key] = list(item.get(key) or []) + extra
         cli = H.Client(self.srv, step["who"])
         r = cli.one(item)
+        if chosen is not None:
+            self.classes.append("create-with-chosen-identifier:%s:%s" % (step["want_uid"], r["status"]))
+            if r["status"] != "SUCCESS":
+                return          # refusing a client-chosen identifier is fine
         if r["status"] != "SUCCESS":
             ie = cli.internal
             if ie:
@@ -186,22 +211,29 @@ class Run(object):
             return
         self.live.remove(o)
         self.dead.append(o)
-        if self.others_snapshot(o["uid"]) != others_before:
-            self.bucket("C07|destroy-affected-other-objects", "destroyed %s" % o["uid"])
+        others_after = self.others_snapshot(o["uid"])
+        if others_after != others_before:
+            diff = [t for t in others_after if others_after[t] != others_before.get(t)]
+            self.bucket("C07|destroy-affected-other-objects|" + ",".join(sorted(diff)),
+                        "destroyed %s; tables that changed for OTHER objects: %s" % (o["uid"], diff))
         if newest:
             self.after_event = "destroy-newest"
 
     def others_snapshot(self, uid):
+        """Every row of every table that does not belong to `uid` (rows are attributed through
+        their uid / mo_uid column; Destroy by design leaves the destroyed object's own per-class
+        and attribute rows behind, those are not looked at)."""
         d = self.srv.raw_dump()
         out = {}
         for t, tab in d.items():
             cols = tab["cols"]
             key = "uid" if "uid" in cols else ("mo_uid" if "mo_uid" in cols else None)
-            rows = tab["rows"]
-            if t == "managed_objects":
-                rows = [r for r in rows if str(r[cols.index("uid")]) != str(uid)]
-            out[t] = rows if t == "managed_objects" else None
-        return out["managed_objects"]
+            if key is None:
+                out[t] = tab["rows"]
+            else:
+                ki = cols.index(key)
+                out[t] = [r for r in tab["rows"] if str(r[ki]) != str(uid)]
+        return out
 
     def do_restart(self):
         self.srv.restart()
